@@ -868,6 +868,9 @@ def make_reference(ctx, base, seed):
 
 
 def run_replay(ctx, replay, base):
+    if replay.get('engine') == 'raftfsm':
+        from . import raft_slice
+        return raft_slice.run_replay(ctx, replay)
     t = replay['trace']
     ref = make_reference(ctx, base, t.get('seed', ctx.seed))
     if t.get('mode') == 'trace':
@@ -1034,10 +1037,12 @@ def run_full(ctx, quick, base):
         ctx.sample({k: r.get(k) for k in ('kind', 'k', 'j', 'label', 'label2', 'height', 'wall')})
     ctx.sample({'write_order_' + ref.script['batches'][2]['kind']: ref.labels[2]})
     ctx.assumptions += ['process death only (kill -9 / os.Exit): data handed to the OS survives; power loss / torn sectors are out of scope',
-                        'single-validator node (pbft); raft mode (FSM.Apply) is not bound',
+                        'the node-subprocess enumeration runs a single-validator pbft node; raft mode (FSM.Apply) is bound by the raft slice (in-process, see raft_slice)',
                         'symbolic hashes in the spec; block parts <= 2, trie batches <= 2 per commit in the model',
                         'mempool contents are volatile: transactions not yet in a committed block may be lost by a crash']
     pool.shutdown(wait=False)
+    from . import raft_slice          # raft consensus mode: RaftMode.tla + replay on real raft-mode nodes + live cluster
+    raft_slice.run_slice(ctx)
 
 
 def crash_job_keep(ref, base):
